@@ -20,6 +20,7 @@ type ctArm struct {
 }
 
 type ctTable struct {
+	Tag string // text of the expression the table dispatches on
 	Fn   string
 	Arms []ctArm
 	Pos  token.Pos
@@ -91,7 +92,7 @@ func extractCTTable(fd *ast.FuncDecl, consts map[string]string) *ctTable {
 		if !strings.Contains(strings.ToLower(tag), "contenttype") {
 			return true
 		}
-		t = &ctTable{Fn: fd.Name.Name, Pos: sw.Pos()}
+		t = &ctTable{Fn: fd.Name.Name, Pos: sw.Pos(), Tag: tag}
 		for _, st := range sw.Body.List {
 			cc := st.(*ast.CaseClause)
 			arm := ctArm{Codec: codecOf(&ast.BlockStmt{List: cc.Body})}
@@ -126,7 +127,142 @@ func extractCTTable(fd *ast.FuncDecl, consts map[string]string) *ctTable {
 		}
 		return false
 	})
+	if t == nil {
+		t = extractCTIfChain(fd, consts)
+	}
 	return t
+}
+
+// extractCTIfChain: the same table spelled as a chain of `if <content type> == A || <content type> == B { … }`
+// statements (else-if arms included) at the top of a block; what follows the chain in that block is the default arm.
+func extractCTIfChain(fd *ast.FuncDecl, consts map[string]string) *ctTable {
+	var t *ctTable
+	label := func(e ast.Expr) string {
+		switch x := ast.Unparen(e).(type) {
+		case *ast.Ident:
+			if v, ok := consts[x.Name]; ok {
+				return v
+			}
+			return "?" + x.Name
+		case *ast.BasicLit:
+			s, _ := strconv.Unquote(x.Value)
+			return s
+		}
+		return "?" + types.ExprString(e)
+	}
+	// labels of a disjunction of equality tests on one content-type expression
+	var condLabels func(e ast.Expr, tag *string) ([]string, bool)
+	condLabels = func(e ast.Expr, tag *string) ([]string, bool) {
+		be, ok := ast.Unparen(e).(*ast.BinaryExpr)
+		if !ok {
+			return nil, false
+		}
+		switch be.Op {
+		case token.LOR:
+			a, ok1 := condLabels(be.X, tag)
+			b, ok2 := condLabels(be.Y, tag)
+			return append(a, b...), ok1 && ok2
+		case token.EQL:
+			x, y := be.X, be.Y
+			if !strings.Contains(strings.ToLower(types.ExprString(x)), "contenttype") || isConstLike(x, consts) {
+				x, y = y, x
+			}
+			tx := types.ExprString(x)
+			if !strings.Contains(strings.ToLower(tx), "contenttype") || isConstLike(x, consts) {
+				return nil, false
+			}
+			if *tag != "" && *tag != tx {
+				return nil, false
+			}
+			*tag = tx
+			return []string{label(y)}, true
+		}
+		return nil, false
+	}
+	mkArm := func(body []ast.Stmt, labels []string) ctArm {
+		arm := ctArm{Codec: codecOf(&ast.BlockStmt{List: body}), Labels: labels}
+		sort.Strings(arm.Labels)
+		ast.Inspect(&ast.BlockStmt{List: body}, func(m ast.Node) bool {
+			if as, ok := m.(*ast.AssignStmt); ok {
+				for _, rh := range as.Rhs {
+					if bl, ok := rh.(*ast.BasicLit); ok && bl.Kind == token.STRING {
+						s, _ := strconv.Unquote(bl.Value)
+						arm.Sets = append(arm.Sets, s)
+					}
+				}
+			}
+			return true
+		})
+		return arm
+	}
+	ast.Inspect(fd.Body, func(n ast.Node) bool {
+		blk, ok := n.(*ast.BlockStmt)
+		if !ok || t != nil {
+			return true
+		}
+		for i, st := range blk.List {
+			ifs, ok := st.(*ast.IfStmt)
+			if !ok {
+				continue
+			}
+			tag := ""
+			labels, ok := condLabels(ifs.Cond, &tag)
+			if !ok {
+				continue
+			}
+			t = &ctTable{Fn: fd.Name.Name, Pos: ifs.Pos(), Tag: tag}
+			t.Arms = append(t.Arms, mkArm(ifs.Body.List, labels))
+			var rest []ast.Stmt
+			cur := ifs
+			for cur != nil {
+				switch e := cur.Else.(type) {
+				case *ast.IfStmt:
+					if ls, ok := condLabels(e.Cond, &tag); ok {
+						t.Arms = append(t.Arms, mkArm(e.Body.List, ls))
+						cur = e
+						continue
+					}
+					cur = nil
+				case *ast.BlockStmt:
+					rest = e.List
+					cur = nil
+				default:
+					cur = nil
+				}
+			}
+			// further ifs of the chain at the same level, then the default
+			j := i + 1
+			for ; j < len(blk.List); j++ {
+				nx, ok := blk.List[j].(*ast.IfStmt)
+				if !ok {
+					break
+				}
+				ls, ok := condLabels(nx.Cond, &tag)
+				if !ok || nx.Else != nil {
+					break
+				}
+				t.Arms = append(t.Arms, mkArm(nx.Body.List, ls))
+			}
+			if rest == nil {
+				rest = blk.List[j:]
+			}
+			t.Arms = append(t.Arms, mkArm(rest, nil))
+			return false
+		}
+		return true
+	})
+	return t
+}
+
+func isConstLike(e ast.Expr, consts map[string]string) bool {
+	switch x := ast.Unparen(e).(type) {
+	case *ast.Ident:
+		_, ok := consts[x.Name]
+		return ok
+	case *ast.BasicLit:
+		return true
+	}
+	return false
 }
 
 // codecFor returns the codec the table selects for a content-type string.
